@@ -474,8 +474,9 @@ def multi_instance(r, geom, bid, cfg, n_inst=2):
         elif layout == "nested":
             # an unkeyed instance and keyed instances in the SAME data directory: the keyed roots are
             # subdirectories of the unkeyed root; all-digit keys look like WAL file names there
-            insts.append({"dir": "d0", "key": None} if i == 0 else
-                         {"dir": "d0", "key": r.choice(["18446744073709551615", "9999999999999999", "7", "k%d" % i])})
+            if i == 0:
+                nested_keys = r.sample(["18446744073709551615", "9999999999999999", "7", "k1", "0042"], 4)
+            insts.append({"dir": "d0", "key": None} if i == 0 else {"dir": "d0", "key": nested_keys[i - 1]})   # distinct keys
         elif layout == "samekey":
             # the same key under different data directories: the instance roots share their last path component
             insts.append({"dir": "d%d" % i, "key": pool[0]})
